@@ -1167,9 +1167,13 @@ impl FatVolume {
                         end_cluster,
                     ) {
                         Ok(cluster) => Some(cluster),
+                        // We just took the last free cluster - that's fine
+                        Err(Error::NotEnoughSpace) => None,
                         Err(e) => return Err(e),
                     }
                 }
+                // We just took the last free cluster - that's fine
+                Err(Error::NotEnoughSpace) => None,
                 Err(e) => return Err(e),
             };
         debug!("Next free cluster is {:?}", self.next_free_cluster);
